@@ -244,8 +244,8 @@ def _h(*parts):
 
 
 class MaskMixin:
-    """mask = None | [salt, pct, maxlen]: applies iff hash(class, salt) % 100 < pct
-    and len(prefix) <= maxlen.  lazy: raise StrategyDoesNotApply lazily (from
+    """mask = None | [salt, pct, maxlen] | [salt, pct, maxlen, deny]: applies iff
+    hash(class, salt) % 100 < pct, len(prefix) <= maxlen and the prefix is not in deny.  lazy: raise StrategyDoesNotApply lazily (from
     rule.children) instead of eagerly (from strategy(comb_class))."""
 
     mask = None
@@ -257,7 +257,9 @@ class MaskMixin:
         m = self.mask
         if m is None:
             return False
-        salt, pct, maxlen = m
+        salt, pct, maxlen = m[:3]
+        if len(m) > 3 and not c.just_prefix and list(c.prefix) in [list(x) for x in m[3]]:
+            return True  # explicit deny list of prefixes (directed scenarios)
         if len(c.prefix) > maxlen:
             return True
         return _h(c.key(), salt) % 100 >= pct
